@@ -324,7 +324,7 @@ func init() {
 		Title: "Bridge byte encodings agree with what the EVM contracts compute and verify",
 		Funcs: fcNP("x/bridge/keeper.Keeper.SetBridgeValidatorParams", "x/bridge/keeper.Keeper.CalculateValidatorSetCheckpoint",
 			"x/bridge/keeper.Keeper.EncodeOracleAttestationData", "x/bridge/keeper.Keeper.GetDepositQueryId", "x/bridge/keeper.Keeper.GetWithdrawalQueryId",
-			"x/bridge/keeper.Keeper.GetWithdrawalReportValue"),
+			"x/bridge/keeper.Keeper.GetWithdrawalReportValue", "x/bridge/keeper.Keeper.CreateSnapshot"),
 		Sweeps: []string{"sol_encodings"},
 		Assumptions: []string{
 			"the Solidity side is compared textually: each abi.encode / abi.decode site of BlobstreamO.sol, Constants.sol and TokenBridge.sol that a Go encoder must agree with is pinned (comments and whitespace removed) to the field list the Go contract states; the correspondence pin <-> Go clause is by construction of the contract text, not derived",
